@@ -24,6 +24,8 @@ ApplySafe == \A o \in {[op |-> "Apply"]} : LET a == Step(st, o, Dev) IN
 Guard == \A o \in Ops : (o.op \in {"AddRootKey", "RemoveRootKey", "UpdateRootThreshold"} /\ Step(st, o, Dev).ok) => o.s \in st.staged.pr
 
 Weight == Len(hist) * 3 + Cardinality(st.staged.pr) * 5 + Cardinality(st.applied.pr) * 7 + st.napplied * 11 + (IF st.chain THEN 0 ELSE 13)
-Emit == IF hist # <<>> /\ ((st.napplied >= 1 /\ Weight % EmitMod = EmitRes) \/ ~st.chain)
+\* histories ending in an Apply that must be refused because a ref is out of sync (also before any policy was applied)
+RefusedApply == hist[Len(hist)].op = "Apply" /\ (~st.ssync \/ ~st.psync) /\ Weight % 3 = EmitRes % 3
+Emit == IF hist # <<>> /\ ((st.napplied >= 1 /\ Weight % EmitMod = EmitRes) \/ ~st.chain \/ RefusedApply)
         THEN PrintT(ToJson([t |-> "SCN", ops |-> hist])) ELSE TRUE
 =============================================================================
